@@ -73,7 +73,7 @@ Proof.
       rewrite (flush_as_app _ (_ ++ _)%list). now rewrite app_assoc. }
     rewrite HT, HO. rewrite shape_walk_prefix by exact Hraw.
     cbn [shape_walk]. rewrite (ph_token_dollar ds Hds Hdne).
-    destruct (accw_dec ds 0%Z 18 Hds Hlen18 ltac:(lia) ltac:(cbn; lia)) as [Hacc Hrange].
+    destruct (accw_dec ds 0%Z 18 Hds Hlen18 ltac:(lia) ltac:(vm_compute; discriminate)) as [Hacc Hrange].
     rewrite Hacc in Ha. rewrite wrap64_id in Ha by (change (10 ^ 18)%Z with 1000000000000000000%Z in Hrange; lia).
     rewrite (map_nth_error sarg_of _ _ Ha).
     rewrite (eat_lit a txt _ Hf). exact HIH.
